@@ -17,10 +17,32 @@ CHECKS = {
          "Bounded tree size. Trusted: the index model.", E2T),
  "C06": ("E2", "Full product of stop subsets x filtered-out subsets x maxlevel x start over all trees up to 6(7) nodes, bounded subsets beyond, for all five iterators vs. the reference restriction.",
          "Bounded tree size. Trusted: the reference restriction.", E2T),
+ "C07": ("E2", "All trees up to 3(4) nodes x name assignments incl. duplicates, case pairs, wildcard/regex characters and the other separator x start x every path of <=3 components (names, unknown, '..', '.', '') relative and absolute x ignorecase x relax x separator/pathattr classes, vs. a reference step interpreter (exact node / exact error class / None) plus the absolute-path and walk-path theorems.",
+         "Bounded sizes and alphabets (ASCII case folding only). Trusted: the 20-line reference interpreter.", E2T),
+ "C08": ("E2+E3", "Pattern semantics: all trees up to 3(4) nodes x names x start x patterns of <=3 components (names, '*', 'a*', '?', '**', '..', '.', '') x ignorecase x relax vs. a recursive reference with its own wildcard matcher (no re); strict-mode errors must be justified dead ends; agreement with get. Cache transparency: breadth-first search over glob call histories incl. fills that force eviction, every result compared with the cache-free reference.",
+         "Bounded sizes/alphabets/history depth. '**' as root component excluded (statement silent).", E2T + "; explicit-state BFS over call histories of the shared pattern cache"),
+ "C09": ("E2", "All trees up to 6(8) nodes x start x 7 styles x 6 childiters x every maxlevel: rows vs reference, tree shape re-decoded from the prefixes alone; str()/by_attr() layout for single/multi-line/empty/list/tuple values; Node/AnyNode/SymlinkNode reprs.",
+         "Bounded tree size; equal-width styles.", E2T),
+ "C10": ("E2", "All trees up to 3(4) nodes with every per-node attribute dictionary from a 5-element domain (rotations up to 5(7) nodes) x start x maxlevel x attriter x childiter x dictcls x nodecls: export vs reference serialisation (types and key order at every level), both round trips, arguments unmodified.",
+         "Bounded sizes; attribute domain of 5 dictionaries.", E2T),
+ "C11": ("E2", "All trees up to 3(4) nodes x JSON value domain (non-ASCII, control characters, nesting, None/bool/int/float extremes) x json options x maxlevel x custom dictexporter/dictimporter, in sequences of two exporter configurations: export == json.dumps(dict export), write == export, import_/read isomorphic.",
+         "Bounded sizes/alphabets; floats compared by repr.", E2T),
+ "C12": ("E2", "All trees up to 4(5) nodes x start x every stop subset x every filtered-out subset x maxlevel for DotExporter, UniqueDotExporter and RenderTreeGraph; text decoded by a line parser with un-escaper; names with quotes/backslashes/spaces/non-ASCII/collisions; custom functions, options, indent; re-iteration, interleaved iteration and iteration after tree growth on one exporter object.",
+         "Bounded sizes/alphabets. Known finding D6 (edge to a directly stopped child) matched exactly.", E2T + " incl. short histories on one exporter object"),
+ "C13": ("E2", "As C12 for MermaidExporter: header, options, node lines in pre-order, edges iff both ends declared, stable distinct ids within/across iterations (also after tree growth, filter change and interleaved iteration), label escaping, verbatim custom functions, to_file fence.",
+         "Bounded sizes/alphabets.", E2T + " incl. short histories on one exporter object"),
  "C14": ("E2", "All trees up to 4-5 (5-6) nodes x attribute assignments x start x value x maxlevel x count-bound grid (incl. 0 and bounds equal to the match count) for the 4 search functions and their cachedsearch twins.",
          "Bounded sizes/alphabets; fastcache absent (pass-through decorator).", E2T),
  "C15": ("E2", "All trees up to 7(9) nodes and 2-3-tree forests: every ordered pair vs. independently computed ancestor chains; adjacency and mirror law.",
          "Bounded tree size.", E2T),
+ "C17": ("E1+E2", "Seven adversarial archetypes (always-equal, never-equal, falsy, zero-length, unhashable, raising, all) on both mixins: E1 exploration in lock-step with the plain class (same outcomes, states, hook logs) and every query family of C04-C15 on all small shapes; every special-method invocation is recorded and must be zero.",
+         "Bounded: N<=4 forests, shapes up to 4(5) nodes; the harness itself never applies ==, in, bool(), len(), hash() to nodes.", E1T + " in lock-step with a plain twin + " + E2T),
+ "C18": ("E1+E2", "Every E1 transition and fault plan executed on a NodeMixin universe and a LightNodeMixin universe in lock-step (outcome class, state, hook log), and the complete query vector (navigation, iterators, walker, resolver, render) on every reached state and all small shapes.",
+         "Bounded: N<=4(5), <=1(2) hook faults, tree-node arguments only.", E1T + "; differential lock-step of the two mixins"),
+ "C19": ("E2", "All trees up to 3(4) nodes x class assignment per node (Node, AnyNode, user NodeMixin, falsy user class, SymlinkNode with every target incl. link-to-link and cross-tree) and LightNodeMixin trees x every entry node x pickle protocols 0-5 + deepcopy: isomorphism, position, disjointness, C01 invariant, symlink targets, and every single structural op applied to the copy/original leaves the other untouched and consistent.",
+         "Bounded sizes; recursion depth far below the interpreter limit.", E2T + " + one-step mutation exploration of every copy"),
+ "C20": ("E1", "Symlink universe (2 nodes, link, link-to-link, cross links): full E1 exploration with C01-C03 oracles and target-independence; from every forest state all interleavings of length <=3 of attribute writes (through link / on target), structural calls and reads with the relational oracle getattr(link, x) == getattr(target, x).",
+         "Bounded: N<=5, interleavings <=3, attribute names {foo, bar, name}.", E1T + "; relational attribute oracle over all interleavings"),
  "C16": ("E1", "Every (reachable forest, call) with hooks that snapshot the forest: exact hook log vs the specified sequence, monitor law between consecutive hook events, post-hook exceptions of parent assignments.",
          "Bounded: N<=4(5), <=1(2) hook faults. Trusted: SpecModel hook grammar.", E1T + "; exact hook-log comparison and snapshot monitor"),
 }
